@@ -1,6 +1,7 @@
 """Environment models (DESIGN.md section 3.3).  Each one is active only while the
 CrossHair tracer runs (they are installed with crosshair's patch registry), so
 native witness replays and counterexample replays use the real hyperframe/hpack."""
+import copy
 import struct
 
 import z3
@@ -169,14 +170,62 @@ def model_body_len(f):
     raise HarnessError("no serialize model for %s" % t.__name__)
 
 
+def _snapshot_frame(f):
+    """serialize() fixes the bytes at the moment it is called: what is captured is the
+    frame as it is NOW (the library may keep and mutate the object afterwards)"""
+    g = object.__new__(type(f))
+    for k, v in f.__dict__.items():
+        if isinstance(v, (set, dict)) or type(v).__name__ == 'Flags':
+            g.__dict__[k] = copy.copy(v)
+        else:
+            g.__dict__[k] = v
+    return g
+
+
+CAPTURE_KEYS = []     # (content key or None, index) per captured frame
+_PLAIN = (int, bytes, str, bool, type(None))
+
+
+def _content_key(f):
+    """hashable description of a frame all of whose fields are concrete, else None (a frame
+    with a symbolic field gets a tag of its own: equality of its bytes with another frame's
+    is not decided by this model -- stated in DESIGN.md 3.3)"""
+    items = []
+    for k, v in sorted(f.__dict__.items()):
+        if k == 'body_len':
+            continue
+        t = type(v)
+        if t in _PLAIN:
+            items.append((k, v))
+        elif t is set or t.__name__ == 'Flags':
+            fl = sorted(v)
+            if any(type(x) is not str for x in fl):
+                return None
+            items.append((k, tuple(fl)))
+        elif t is dict:
+            if any(type(a) not in _PLAIN and not isinstance(a, int) or type(b) not in _PLAIN
+                   for a, b in v.items()):
+                return None
+            items.append((k, tuple(sorted((int(a), b) for a, b in v.items()))))
+        else:
+            return None
+    return (type(f).__name__, tuple(items))
+
+
 def _serialize_model(self):
     n = model_body_len(self)
     self.body_len = n
     with NoTracing():
+        key = _content_key(self)
+        if key is not None:
+            for i, (k0, _f) in enumerate(CAPTURE_KEYS):
+                if k0 == key:
+                    return bytes([i])       # identical frames serialise to identical bytes
         k = len(CAPTURE)
         if k >= 250:
             raise HarnessError("more than 250 frames serialised on one path")
-        CAPTURE.append(self)
+        CAPTURE.append(_snapshot_frame(self))
+        CAPTURE_KEYS.append((key, k))
     # one opaque tag byte per frame (its index in the capture list): the output buffer
     # grows exactly when a frame is emitted and keeps the frames' BUFFER order
     return bytes([k])
@@ -239,6 +288,7 @@ def parse_frames(data, skip_preface=True):
 
 def reset_path_state():
     del CAPTURE[:]
+    del CAPTURE_KEYS[:]
     NATIVE_DEPTH[0] = 0
 
 
